@@ -112,6 +112,61 @@ Check (order_equal_not_transitive_prefix_rounding :
   order_by_prefix c64_rne c32_rne w_2p53d w_2p53 = Eq /\
   order_by_prefix c64_rne c32_rne w_2p53p1 w_2p53 = Gt).
 
+(* ---------- end-to-end queries (harness kinds q:..): the operator '<' of expressions, equal values
+   written differently, computed integer keys, windows ---------- *)
+(* '<' as FILTER / BIND evaluate it (sparql_compare: two numbers are never an error) is true exactly when
+   the relation lt_sparql of the theorems above is, so every sorted output respects it *)
+Check (sparql_compare_lt_iff : forall c64 c32 a b,
+  sparql_compare c64 c32 is_lt a b = Some true <-> lt_sparql c64 c32 a b = Some true).
+Check (order_by_respects_compare : forall c64 c32 f64 f32 a b,
+  conv_ok c64 f64 -> conv_ok c32 f32 ->
+  item_ok a -> item_ok b -> item_fmt f64 f32 a -> item_fmt f64 f32 b ->
+  sparql_compare c64 c32 is_lt a b = Some true -> order_by a b = Lt).
+Check (sparql_compare_numbers_total : forall c64 c32 pred a b x y,
+  val a = Some (VNum x) -> val b = Some (VNum y) -> sparql_compare c64 c32 pred a b <> None).
+Check (lt_entry_ok_true : forall k1 k2, lt_entry_ok k1 k2 1 = true -> key_cmp order_by k1 k2 = Lt).
+(* two literals whose values are equal (1 / 1.0 / 1e0, one instant in two time zones, true / "1") are
+   tied whatever their spelling, and the next criterion decides *)
+Check (order_by_value_tie : forall a b x y,
+  val a = Some x -> val b = Some y -> is_literal (tm a) = true -> is_literal (tm b) = true ->
+  value_order_by_cmp x y = Some Eq -> order_by a b = Eq).
+Check (equal_values_defer_to_next_key : forall d ds a b t1 t2 x y,
+  val a = Some x -> val b = Some y -> is_literal (tm a) = true -> is_literal (tm b) = true ->
+  value_order_by_cmp x y = Some Eq ->
+  cmp_bindings_with order_by (d :: ds) (Some a :: t1) (Some b :: t2) = cmp_bindings_with order_by ds t1 t2).
+Check equal_values_witnesses.
+(* integer arithmetic of the engine: exact, results of operations on a BigInt are not normalised, and
+   ORDER BY sorts computed integers by value whatever their representation *)
+Check (int_arith_value : forall o a b r, int_arith o a b = Some r ->
+  exists x y, int_val a = Some x /\ (o = ONeg \/ int_val b = Some y) /\ int_val r = Some (z_op o x y)).
+Check (int_arith_native_fits : forall o x y z,
+  int_arith o (NativeInt x) (NativeInt y) = Some (NativeInt z) -> fits_isize z = true).
+Check int_arith_not_normalised.
+Check (computed_int_keys_order : forall a b n1 n2 x y,
+  val a = Some (VNum n1) -> val b = Some (VNum n2) ->
+  is_literal (tm a) = true -> is_literal (tm b) = true ->
+  int_val n1 = Some x -> int_val n2 = Some y -> order_by a b = Z.compare x y).
+Check (order_by_int_repr_indep : forall t z b,
+  order_by (mkItem t (Some (VNum (BigInt z)))) b = order_by (mkItem t (Some (VNum (NativeInt z)))) b
+  /\ order_by b (mkItem t (Some (VNum (BigInt z)))) = order_by b (mkItem t (Some (VNum (NativeInt z))))).
+Check (cancelling_sums_sorted_by_value : forall a b ra rb h1 h2 d1 d2,
+  int_arith OAdd (BigInt h1) (NativeInt (d1 - h1)) = Some ra ->
+  int_arith OAdd (NativeInt d2) (NativeInt h2) = Some rb ->
+  val a = Some (VNum ra) -> val b = Some (VNum rb) ->
+  is_literal (tm a) = true -> is_literal (tm b) = true ->
+  order_by a b = Z.compare d1 (d2 + h2)).
+(* LIMIT / OFFSET above ORDER BY (exec.rs slice) and the removal of solutions (DISTINCT) keep the order *)
+Check (window_sorted : forall descs start len rs,
+  sorted_ok descs rs = true -> sorted_ok descs (window start len rs) = true).
+Check (window_of_sorted_result : forall descs rows full start len,
+  rows_ok descs rows full = true -> sorted_ok descs (rows_at rows (window start len full)) = true).
+Check (@window_length : forall (A : Type) start len (l : list A),
+  List.length (window start len l) =
+  let rest := (List.length l - N.to_nat start)%nat in
+  match len with Some n => Nat.min (N.to_nat n) rest | None => rest end).
+Check (filter_sorted : forall descs (keep : row -> bool) rs,
+  sorted_ok descs rs = true -> sorted_ok descs (filter keep rs) = true).
+
 (* non-vacuity *)
 Check order_by_on_witnesses.
 Check hypotheses_inhabited.
@@ -140,3 +195,20 @@ Print Assumptions order_not_transitive_prefix_datetime.
 Print Assumptions order_equal_not_transitive_prefix_rounding.
 Print Assumptions order_by_on_witnesses.
 Print Assumptions hypotheses_inhabited.
+Print Assumptions sparql_compare_lt_iff.
+Print Assumptions order_by_respects_compare.
+Print Assumptions sparql_compare_numbers_total.
+Print Assumptions lt_entry_ok_true.
+Print Assumptions order_by_value_tie.
+Print Assumptions equal_values_defer_to_next_key.
+Print Assumptions equal_values_witnesses.
+Print Assumptions int_arith_value.
+Print Assumptions int_arith_native_fits.
+Print Assumptions int_arith_not_normalised.
+Print Assumptions computed_int_keys_order.
+Print Assumptions order_by_int_repr_indep.
+Print Assumptions cancelling_sums_sorted_by_value.
+Print Assumptions window_sorted.
+Print Assumptions window_of_sorted_result.
+Print Assumptions window_length.
+Print Assumptions filter_sorted.
